@@ -355,6 +355,11 @@ def run(ctx):
                             'after the unlock is missed by a finisher that already tested it, and then nobody reaps the record'):
             v12 = ctx.view(NATIVE, roots=['myth_entry_point_1', 'myth_entry_point_2', 'myth_detach_body'], stops=c12.STOPS2, flavour=fl)
             ctx.attempt(c12.rule2_order, ctx, v12)
+        with ctx.shared({'C01.1': 'C13.12'}, keep=lambda k: 'detachstate' in k, floor=1,
+                        doc='who reaps is decided from an initialised attribute (shared with C01.1): myth_thread_attr_init writes detachstate, '
+                            'which myth_create_ex_body reads - an attribute object in recycled memory otherwise creates a detached thread '
+                            'that its finisher reaps and the caller\'s join reaps again'):
+            ctx.attempt(c01.rule1_attr, ctx, fl)
         ctx.doc('C13.7', 'the reaping entry points do not use a worker env obtained before they blocked (stale-value dataflow, shared with '
                 'C12.3): a record released to the free list of the worker the joiner started on is never found again by the worker '
                 'that allocates, so create/reap cycles grow without bound')
@@ -374,6 +379,8 @@ def run(ctx):
 SCHED = 'src/myth_sched_func.h'
 WRAP = 'src/myth_wrap_pthread.c'
 MUTANTS = [
+    {'name': 'attr_init leaves detachstate to whatever the memory held (seed6 C13/m2)', 'expect': 'C13.12',
+     'edits': [(SCHED, "  attr->detachstate = 0;\n  myth_globalattr_get_guardsize_body(0, &attr->guardsize);", "  myth_globalattr_get_guardsize_body(0, &attr->guardsize);")]},
     {'name': 'detach sets the flag after releasing the record lock: a finisher that already tested it leaves the record to nobody (hand mutant r6)', 'expect': 'C13.11',
      'edits': [(SCHED, "    myth_desc_set_detached(th);\n    myth_spin_unlock_body(&th->lock);", "    myth_spin_unlock_body(&th->lock);\n    myth_desc_set_detached(th);")]},
     {'name': 'detach-state attribute applied on the child-first path only (seed4 C13/m3)', 'expect': 'C13.2',
